@@ -470,6 +470,27 @@ def r5_2(ctx):
             n += 1
             ctx.check(good, f.fq, short(c), f"{m.relpath}:{c.lineno}", f"every span shifted by `{cnt}`, the number of characters inserted on the left",
                       f"{name}: spans are not all shifted by exactly `{cnt}` (the left padding): styles slide off their characters")
+        # sign premise: `character * count` inserts max(count, 0) characters, so shifting by `count` is right only for count >= 0.
+        # The shift must sit under a fact that excludes negative amounts (count > 0 / count >= 1 / not count <= 0), or the
+        # amount must have been clamped with max(.., 0) - a bare truthiness test `if count:` lets negative counts through
+        # (Lines.justify passes width - cell_len(line) < 0 for over-long lines with overflow="ignore").
+        for c, amount in comps:
+            hfn = f
+            for q in m.functions.values():
+                if q.cls is f.cls and any(x is c for x in walk_local(q.node)):
+                    hfn = q
+            g_ = cfgmod.build(hfn.node)
+            st_ = c
+            while not isinstance(st_, ast.stmt):
+                st_ = m.parent_of[st_]
+            facts_ = []
+            for nid in g_.nodes_of(st_):
+                facts_ += [(norm(t0), v0) for t0, v0 in g_.branch_facts(nid)]
+            pos = {(f"{amount} > 0", True), (f"0 < {amount}", True), (f"{amount} >= 1", True), (f"1 <= {amount}", True), (f"{amount} <= 0", False), (f"{amount} < 1", False), (f"0 >= {amount}", False), (f"1 > {amount}", False)}
+            clamped = any(isinstance(x, ast.Assign) and norm(x.targets[0]) == amount and norm(x.value) in (f"max({amount}, 0)", f"max(0, {amount})") for x in walk_local(hfn.node))
+            n += 1
+            ctx.check(bool(pos & set(facts_)) or clamped, hfn.fq, short(st_), f"{m.relpath}:{st_.lineno}", f"the span shift runs only for `{amount}` > 0, where it equals the number of characters inserted",
+                      f"{name}: spans are shifted by `{amount}` under the guard {[t for t, v in facts_] or 'none'}, which admits negative amounts: `character * {amount}` inserts nothing then, but every span moves left by |{amount}| - styles land on the wrong characters and Text.render runs out of its style stack (RuntimeError) for spans pushed below 0")
         # the left padding inserted is `character * count`
         src = norm(f.node)
         okp = f"character * {cnt}" in src
